@@ -48,6 +48,13 @@ def build_cases(ctx):
         cfg = gwcheck.make_cfg(rng)
         persist = rng.random() < 0.8
         cfg["persist"] = persist
+        if i % 15 == 4:          # a periodic save that fails in the pickle serialiser after an id was handed out
+            cfg["ver"] = "2.2"
+            cfg.pop("spell", None)
+            cfg["persist"] = True
+            cases.append({"id": f"c06d-{ctx.seed}-{ctx.scale}-{i}", "cfg": cfg, "_persist": True, "_fmt": "pickle",
+                          "ops": scenarios_a.c06_failed_save(scenarios_a.Hist(rng, cfg))})
+            continue
         cases.append({"id": f"c06d-{ctx.seed}-{ctx.scale}-{i}", "cfg": cfg, "ops": scenarios_a.c06_directed(rng, cfg),
                       "_persist": persist})
     return cases
@@ -55,7 +62,7 @@ def build_cases(ctx):
 
 def run(ctx, res):
     cases = build_cases(ctx)
-    root = scenarios_a.assign_persist(cases, "c06", lambda i, c: (["json", "pickle"][i % 2] if c.pop("_persist") else None))
+    root = scenarios_a.assign_persist(cases, "c06", lambda i, c: ((c.pop("_fmt", None) or ["json", "pickle"][i % 2]) if c.pop("_persist") else None))
     try:
         recs = gwcheck.run_cases(ctx, res, cases, MONITORS, SCOPE, "c06")
     finally:
